@@ -496,7 +496,7 @@ const staticBase = int64(1) << 48
 func (e *Exec) assumeSliceWF(s SliceV, st *State) {
 	z := ConstI(0, I64)
 	e.ctx.assume(And(Le(z, s.Len), Le(s.Len, s.Cap), Le(s.Cap, ConstI(maxAddr, I64)),
-		Le(z, s.Ptr), Or(Le(AddNW(s.Ptr, s.Cap), st.allocTop), Le(ConstI(staticBase, Ref), s.Ptr)),
+		Le(z, s.Ptr), Le(s.Ptr, ConstI(staticBase*4, Ref)), Or(Le(AddNW(s.Ptr, s.Cap), st.allocTop), Le(ConstI(staticBase, Ref), s.Ptr)),
 		Le(AddNW(s.Ptr, s.Cap), ConstI(e.staticLimit(st), Ref)),
 		Imp(Eq(s.Ptr, z), Eq(s.Cap, z))))
 }
